@@ -48,7 +48,7 @@ type sctVariant struct {
 // sctVariants: field-level classes of a 200 add-chain / add-pre-chain response for the chain
 // that will be submitted; [e] is the entry a correct log signs for it (a stand-in when the
 // chain admits none).
-func sctVariants(r randT, fx *fixtures, signer, foreign *logKey, e *entry, other *entry) ([]sctVariant, []byte) {
+func sctVariants(r randT, fx *fixtures, signer, foreign *logKey, certs [][]byte, e *entry, other *entry) ([]sctVariant, []byte) {
 	ts := pickU64(r)
 	tss := fmt.Sprint(ts)
 	ext := []byte(nil)
@@ -68,6 +68,15 @@ func sctVariants(r randT, fx *fixtures, signer, foreign *logKey, e *entry, other
 	swapped := &entry{precert: true, ikh: randBytes(r, 32), tbs: e.cert}
 	if e.precert {
 		swapped = &entry{cert: e.tbs}
+	}
+	// the same chain read as the OTHER entry type (what a log would sign had it been submitted to the other endpoint)
+	crossed := swapped
+	if len(certs) > 0 {
+		if e.precert {
+			crossed = &entry{cert: certs[0]}
+		} else if pe := deriveEntry(certs, true); pe != nil {
+			crossed = pe
+		}
 	}
 	vs := []sctVariant{
 		mk("valid", "key-hash", good),
@@ -107,6 +116,7 @@ func sctVariants(r randT, fx *fixtures, signer, foreign *logKey, e *entry, other
 		mk("timestamp-negative", "n/a", sctJSON("0", id, "-5", "", ds)),
 		mk("signature-is-object", "n/a", []byte(`{"sct_version":0,"id":`+id+`,"timestamp":`+tss+`,"extensions":"","signature":{}}`)),
 		mk("trailing-garbage-after-json", "n/a", append(append([]byte{}, good...), []byte(" x")...)),
+		mk("signed-for-same-chain-as-other-entry-type", "key-hash", sctJSON("0", id, tss, "", signer.signDS(rfcSCTInput(ts, crossed, ext), 4))),
 	}
 	return vs, good
 }
@@ -269,6 +279,13 @@ func caseAddChain(t *testing.T, sp addSpec) lib.Case {
 	if ok && obs.Class == "ok" && (!finalDecoded || sct.Timestamp != shadow.Timestamp || uint64(sct.SCTVersion) != shadow.Version) {
 		ok, note = false, "add-chain: returned SCT differs from the response fields "+where
 	}
+	if ok && obs.Class == "ok" {
+		_, dsOK := parseDS(shadow.Signature)
+		ext, berr := base64.StdEncoding.DecodeString(shadow.Extensions)
+		if !dsOK || berr != nil || !bytes.Equal(ext, sct.Extensions) {
+			ok, note = false, "add-chain: SCT returned from a response whose signature / extensions field is malformed "+where
+		}
+	}
 	var classes []string
 	for _, a := range atts {
 		classes = append(classes, a.Class)
@@ -312,7 +329,7 @@ func genAddChain(t *testing.T, r randT, w *lib.Writer, fx *fixtures, configs []*
 			}
 			ch := fx.chain(s.chain)
 			e := deriveEntry(ch.certs, s.precert)
-			vs, good := sctVariants(r, fx, signer, foreign, e, other)
+			vs, good := sctVariants(r, fx, signer, foreign, ch.certs, e, other)
 			for _, v := range vs {
 				w.Add(caseAddChain(t, addSpec{key: key, usePEM: r.Intn(2) == 0, temporal: r.Intn(6) == 0, precert: s.precert, chain: ch,
 					name: v.name, idClass: v.idClass, items: v.items}))
@@ -356,7 +373,7 @@ func genAddChain(t *testing.T, r randT, w *lib.Writer, fx *fixtures, configs []*
 			if e == nil {
 				e = standIn(fx, s.precert)
 			}
-			vs, _ := sctVariants(r, fx, signer, foreign, e, other)
+			vs, _ := sctVariants(r, fx, signer, foreign, ch.certs, e, other)
 			for _, v := range []sctVariant{vs[0], vs[3], vs[15], {variant{"500", []wireItem{resp(500, []byte(htmlPage), "500")}}, "n/a"}} {
 				for _, temporal := range []bool{false, true} {
 					w.Add(caseAddChain(t, addSpec{key: key, usePEM: true, temporal: temporal, precert: s.precert, chain: ch,
